@@ -6,7 +6,7 @@
    nonce / ACR / auth-age, and a present at_hash is the left-half hash of the
    access token.  Conversely a correctly signed token meeting all of that with
    more than clock-rounding margin is accepted, claims unchanged." *)
-From OIDC Require Export Lib Base64 C02_Jws C01_Verifier C02_Ground.
+From OIDC Require Export Lib Base64 C02_Jws C01_Verifier C02_Ground C01_Options.
 
 (* access token and its real SHA-256 / SHA-384 / SHA-512 digests (hash oracle) *)
 Record atoken := mkAT { at_value : string; at_256 : list nat; at_384 : list nat; at_512 : list nat }.
@@ -19,14 +19,21 @@ Record istep := mkIStep {
 Inductive input :=
 | IIDToken (v : verifier) (ks : keyset) (t : token) (m : middle) (atk : option atoken) (now0 now1 : Z)
     (* at = None: rp.VerifyIDToken; Some: rp.VerifyTokens.  [now0,now1] brackets the call. *)
-| IIDTokenSeq (v : verifier) (ks : keyset) (steps : list istep).
+| IIDTokenSeq (v : verifier) (ks : keyset) (steps : list istep)
     (* ONE rp.IDTokenVerifier (and the one key set behind it) used for several
        calls, VerifyIDToken and VerifyTokens mixed, with different ID tokens and
        access tokens *)
+| IOptions (issuer client : string) (opts : list vopt) (probes : list string) (p : profile)
+    (ks : keyset) (t : token) (m : middle) (atk : option atoken) (now0 now1 : Z).
+    (* the verifier is rp.NewIDTokenVerifier(issuer, client, ks, opts...); its
+       configuration is read back (ACR function probed with [probes]), one call is
+       made with it, and every accessor of the returned claims is read.  [p]: the
+       profile members the payload of [t] was built from. *)
 
 Inductive observed :=
 | OOut (o : outcome)
 | OSeq (l : list outcome)
+| OOpt (co : cfgobs) (o : outcome) (g : option gview)   (* g: the accessors, when claims came back *)
 | OPanic.
 
 Definition digest_of (a : atoken) (h : hkind) : list nat :=
@@ -46,6 +53,14 @@ Definition model (i : input) : observed :=
   | IIDToken v ks t m atk now0 _ => OOut (model_step v ks t m atk now0)
   | IIDTokenSeq v ks steps =>
       OSeq (map (fun s => model_step v ks (is_tok s) (is_mid s) (is_at s) (is_now0 s)) steps)
+  | IOptions issuer client opts probes p ks t m atk now0 _ =>
+      let v := new_id_token_verifier issuer client opts in
+      let o := model_step v ks t m atk now0 in
+      OOpt (observe_cfg v probes) o
+           (match o with
+            | Accept c alg | AcceptExpired c alg _ => Some (getters c alg p)
+            | Reject _ => None
+            end)
   end.
 
 (* ---------------- the property, from its text ---------------- *)
@@ -158,10 +173,77 @@ Fixpoint spec_seq (v : verifier) (ks : keyset) (steps : list istep) (outs : list
   | _, _ => false
   end.
 
+(* ---- "the configured ... requirements": what an option list configures.
+   From the documentation of rp.NewIDTokenVerifier and its options: every
+   option sets the one setting it names; a setting no option names keeps its
+   default (offset 1 s, no max ages, the empty nonce expected, no ACR
+   requirement, the default algorithm list); of several options naming the same
+   setting the one given last counts. ---- *)
+Fixpoint first_some {A} (f : vopt -> option A) (l : list vopt) : option A :=
+  match l with
+  | [] => None
+  | o :: r => match f o with Some a => Some a | None => first_some f r end
+  end.
+Definition last_of {A} (f : vopt -> option A) (opts : list vopt) (dflt : A) : A :=
+  match first_some f (rev opts) with Some a => a | None => dflt end.
+
+Definition sel_offset (o : vopt) := match o with WithIssuedAtOffset d => Some d | _ => None end.
+Definition sel_max_iat (o : vopt) := match o with WithIssuedAtMaxAge d => Some d | _ => None end.
+Definition sel_nonce (o : vopt) := match o with WithNonce n => Some n | _ => None end.
+Definition sel_acr (o : vopt) := match o with WithACRVerifier l => Some l | _ => None end.
+Definition sel_max_age (o : vopt) := match o with WithAuthTimeMaxAge d => Some d | _ => None end.
+Definition sel_algs (o : vopt) := match o with WithSupportedSigningAlgorithms l => Some l | _ => None end.
+
+Definition configured (issuer client : string) (opts : list vopt) : verifier :=
+  mkVerifier issuer client
+             (last_of sel_offset opts one_second) (last_of sel_max_iat opts 0%Z) (last_of sel_max_age opts 0%Z)
+             (last_of sel_nonce opts (Some "")) (last_of sel_acr opts None) (last_of sel_algs opts []).
+
+(* the verifier handed out has configuration v, as far as it can be read back *)
+Definition cfg_reported (v : verifier) (probes : list string) (co : cfgobs) : bool :=
+  (co_issuer co =s v_issuer v) && (co_client co =s v_client v)
+  && Z.eqb (co_offset co) (v_offset v) && Z.eqb (co_max_iat co) (v_max_iat v) && Z.eqb (co_max_age co) (v_max_age v)
+  && option_eqb String.eqb (co_nonce co) (v_nonce v)
+  && match v_acr v, co_acr co with
+     | None, None => true
+     | Some l, Some answers => list_eqb Bool.eqb answers (map (fun p => string_in p l) probes)
+     | _, _ => false
+     end
+  && list_eqb String.eqb (co_algs co) (v_algs v).
+
+(* ---- "its claims are returned unchanged", at the accessors: a present time
+   claim is reported as that second, an absent one as no time; every string
+   claim, the audience list and the profile members as the payload has them ---- *)
+Definition time_reported (s : Z) (g : gtime) : bool :=
+  if Z.eqb s 0 then gt_zero g else Z.eqb (gt_unix g) s.
+
+Definition getters_report (c : claims) (alg : string) (p : profile) (g : gview) : bool :=
+  (g_iss g =s c_iss c) && (g_sub g =s c_sub c) && list_eqb String.eqb (g_aud g) (c_aud c)
+  && time_reported (c_exp c) (g_exp g) && time_reported (c_iat c) (g_iat g)
+  && time_reported (c_auth_time c) (g_auth_time g)
+  && (g_nonce g =s c_nonce c) && (g_acr g =s c_acr c) && (g_azp g =s c_azp c)
+  && (g_alg g =s alg) && (g_at_hash g =s c_at_hash c)
+  && (ui_sub g =s c_sub c) && (ui_name g =s p_name p) && (ui_given g =s p_given p)
+  && (ui_family g =s p_family p) && (ui_username g =s p_username p)
+  && (ui_email g =s p_email p) && Bool.eqb (ui_email_verified g) (p_email_verified p)
+  && (ui_phone g =s p_phone p) && Bool.eqb (ui_phone_verified g) (p_phone_verified p)
+  && option_eqb String.eqb (ui_address g) (p_address p)
+  && Z.eqb (ui_updated_at g) (p_updated_at p)
+  && (ui_ext g =s c_extra c) && N.eqb (ui_members g) (p_members p).
+
 Definition spec (i : input) (o : observed) : bool :=
   match i, o with
   | IIDToken v ks t m atk now0 now1, OOut o => spec_step v ks t m atk now0 now1 o
   | IIDTokenSeq v ks steps, OSeq l => spec_seq v ks steps l
+  | IOptions issuer client opts probes p ks t m atk now0 now1, OOpt co o g =>
+      let v := configured issuer client opts in
+      cfg_reported v probes co
+      && spec_step v ks t m atk now0 now1 o          (* the call, judged for the configured verifier *)
+      && match m, o, g with
+         | MidOk _ c, Accept _ _, Some gv => getters_report c (sig_alg t) p gv
+         | _, Accept _ _, _ => false
+         | _, _, _ => true
+         end
   | _, _ => false
   end.
 
@@ -169,6 +251,7 @@ Definition obs_eqb (a b : observed) : bool :=
   match a, b with
   | OOut x, OOut y => outcome_eqb x y
   | OSeq x, OSeq y => list_eqb outcome_eqb x y
+  | OOpt c1 o1 g1, OOpt c2 o2 g2 => cfgobs_eqb c1 c2 && outcome_eqb o1 o2 && option_eqb gview_eqb g1 g2
   | OPanic, OPanic => true
   | _, _ => false
   end.
@@ -181,6 +264,10 @@ Definition path (i : input) (o : observed) : nat :=
   | IIDToken _ _ _ _ _ _ _, OOut o => outcome_code o
   | IIDTokenSeq _ _ _, OSeq l =>   (* number of accepting calls of the sequence *)
       100 + Nat.min 9 (List.length (filter (fun o => match o with Accept _ _ => true | _ => false end) l))
+  | IOptions _ _ _ _ _ _ _ _ atk _ _, OOpt _ (Accept c _) _ =>
+      match atk with None => 230 | Some _ => if c_at_hash c =s "" then 231 else 232 end
+  | IOptions _ _ _ _ _ _ _ _ _ _ _, OOpt _ o _ =>
+      match outcome_code o with 0 => 0 | k => 200 + k end
   | _, _ => 0
   end.
 
